@@ -29,7 +29,9 @@ func main() {
 	keysOnly := flag.Bool("keys", false, "internal: print failing obligation keys as JSON, write no evidence")
 	dump := flag.String("dump", "", "debug: dump SSA + dominating conditions of pkg/rel:Func")
 	manifest := flag.Bool("manifest", false, "print MANIFEST.json generated from the rule registry")
+	rolesDbg := flag.Bool("roles", false, "debug: print the roles resolved on this tree (scheduler, graph, node, agent)")
 	lockstat := flag.Bool("lockstat", false, "debug: print lock / field access statistics")
+	strictSelf := flag.Bool("strict-selftest", false, "a misbehaving selftest variant fails the run (development gate on the pinned tree)")
 	novar := flag.Bool("novariants", false, "thorough tier without the variant suite (debug)")
 	flag.Parse()
 
@@ -57,6 +59,15 @@ func main() {
 
 	if *manifest {
 		writeManifest(*verif)
+		return
+	}
+	if *rolesDbg {
+		p, err := load.Load(load.Options{Dir: *dir})
+		if err != nil {
+			fmt.Println(err)
+			os.Exit(2)
+		}
+		rules.DumpRoles(p)
 		return
 	}
 	if *lockstat {
@@ -159,6 +170,7 @@ func main() {
 		return
 	}
 
+	variants.VerifDir = *verif
 	findings, err := report.LoadFindings(filepath.Join(*verif, "known_findings.json"))
 	if err != nil {
 		fail("FINDINGS", err.Error())
@@ -167,7 +179,17 @@ func main() {
 	if *tier == "thorough" && !*novar && *replay == "" {
 		vr := variants.Run(*prop, *dir, seed, findings)
 		extra["variant_suite"] = vr.Summary
-		if len(vr.Problems) > 0 {
+		// A variant that misbehaves says something about the checker on this tree,
+		// not that this tree breaks the property: it is reported loudly and recorded
+		// in the evidence, and fails the run only under -strict-selftest (the mode the
+		// checker's own development gate uses on the pinned tree).
+		var sp []map[string]string
+		for _, pb := range vr.Problems {
+			fmt.Printf("SELFTEST-PROBLEM property=%s variant=%q %s\n", *prop, pb.Name, pb.Msg)
+			sp = append(sp, map[string]string{"variant": pb.Name, "problem": pb.Msg})
+		}
+		extra["selftest_problems"] = sp
+		if len(vr.Problems) > 0 && *strictSelf {
 			rep.Rule("SELFTEST", "variant suite", "must-fire variants are reported, must-stay-silent variants are not", 0)
 			for _, pb := range vr.Problems {
 				rep.Unknown("variant "+pb.Name, "-", pb.Msg)
